@@ -98,7 +98,11 @@ func (w *c06Walker) walk(t ast.Type, path string, objName string, top bool, inAl
 			for _, f := range t.Struct.Fields {
 				fp := path + "/" + gen + "field:" + f.Name
 				if !f.Required && !f.Type.Nullable {
-					w.hit("NonRequiredNullable", fp+":"+string(f.Type.Kind))
+					kind := string(f.Type.Kind)
+					if f.Type.Kind == ast.KindScalar && f.Type.Scalar != nil {
+						kind += "(" + string(f.Type.Scalar.ScalarKind) + ")"
+					}
+					w.hit("NonRequiredNullable", fp+":"+kind)
 				}
 				w.walk(f.Type, fp, objName, false, inAllOf)
 			}
